@@ -30,6 +30,8 @@ type Obligation struct {
 	Model  string
 	Output string
 	SMT    string
+	Obs    []NamedTerm
+	Vals   map[string]string
 }
 
 var safetyKinds = map[string]bool{"index": true, "slice": true, "divzero": true, "assert": true, "nofatal": true, "nopanic": true, "makelen": true,
@@ -72,6 +74,9 @@ func (e *Engine) oblige(fr *Frame, st *State, kind, detail string, site int, goa
 		}
 	}
 	o.Hyps = append([]*Term(nil), st.path...)
+	if !goal.IsTrue() {
+		o.Obs = e.observablesOf(fr, st)
+	}
 	e.obls = append(e.obls, o)
 }
 
